@@ -1,7 +1,7 @@
 """C18 -- buffered writes are flushed once they are about ten seconds old.
 
 Explorer K (see kcommon) on the lazily-committing sqlite store with an owned
-virtual clock: environment events advance the clock by 5 / 6 (thorough also 1 / 3600) s
+virtual clock: environment events advance the clock by 5 / 6 s and by one day + 3 s (thorough also 1 / 3600 s)
 between writes; after any event write that returns more than 11 virtual
 seconds after the previous flush, the crash image must contain that write."""
 import os
@@ -9,9 +9,9 @@ import time
 
 from mc.props import kcommon
 
-ALPHA = ("ins1", "bulk2", "mix", "rep", "repl", "del", "delx", "get", "mkB2", "insB2", "delB2", "clock+5", "clock+6")
+ALPHA = ("ins1", "bulk2", "mix", "ups", "rep", "repl", "del", "delx", "get", "mkB2", "insB2", "delB2", "clock+5", "clock+6", "clock+86403")
 BOUNDS = {
-    "quick": {"sqlite": list(ALPHA), "depth": "all histories of <= 8 operations (dedup on canonical state); thorough runs to fixpoint", "initial_state": "bucket B1 with 2 single-inserted events, flushed", "real_time_trace": "insert, sleep 11.5 s of wall-clock, insert -> must be durable (validates the virtual clock against the real one)"},
+    "quick": {"sqlite": list(ALPHA), "depth": "all histories of <= 7 operations (dedup on canonical state); thorough runs to fixpoint", "initial_state": "bucket B1 with 2 single-inserted events, flushed", "real_time_trace": "insert, sleep 11.5 s of wall-clock, insert -> must be durable (validates the virtual clock against the real one)"},
     "thorough": {"plus": "clock+3600, bulk49/50/51"},
 }
 RULE = (
@@ -26,8 +26,8 @@ ASSUMPTIONS = [
 
 def configs(ctx):
     if ctx.thorough:
-        return [{"name": "sqlite/clock", "backend": "sqlite", "alphabet": ALPHA + ("clock+1", "clock+3600", "bulk49", "bulk51"), "max_states": 200000}]
-    return [{"name": "sqlite/clock", "backend": "sqlite", "alphabet": ALPHA, "max_depth": 8}]
+        return [{"name": "sqlite/clock", "backend": "sqlite", "alphabet": ALPHA + ("ups2", "clock+1", "clock+3600", "bulk49", "bulk51"), "max_states": 200000}]
+    return [{"name": "sqlite/clock", "backend": "sqlite", "alphabet": ALPHA, "max_depth": 7}]
 
 
 def _realtime_trace(ctx):
